@@ -46,11 +46,31 @@ M = [
  ("increments_column_renamed", "pyins/strapdown.py", "columns=['dt', 'theta_x', 'theta_y', 'theta_z',\n                                 'dv_x', 'dv_y', 'dv_z']", "columns=['dt', 'theta_x', 'theta_y', 'theta_z',\n                                 'dv_x', 'dv_y', 'dvz']", ["C19"], "violation"),
  ("ff_innov_stamped_with_epoch", "pyins/filters.py", "                    innovations_times[name].append(time)\n\n            measurement_time_index += 1",
   "                    innovations_times[name].append(measurement_time)\n\n            measurement_time_index += 1", ["C10"], "quiet-or-drift"),   # C10 does not say which stamp a feedforward innovation row carries
- ("nedvel_2d_slice_removed", "pyins/measurements.py", "        H = error_model.ned_velocity_error_jacobian(pva)\n        R = self.R\n        if not error_model.with_altitude:\n            z = z[:2]",
-  "        H = error_model.ned_velocity_error_jacobian(pva)\n        R = self.R\n        if not error_model.with_altitude:\n            z = z[:3]", ["C13"], "violation"),
+ ("nedvel_2d_slice_removed", "pyins/measurements.py", "        H = error_model.ned_velocity_error_jacobian(pva, self.imu_to_antenna_b)\n        R = self.R\n        if not error_model.with_altitude:\n            z = z[:2]",
+  "        H = error_model.ned_velocity_error_jacobian(pva, self.imu_to_antenna_b)\n        R = self.R\n        if not error_model.with_altitude:\n            z = z[:3]", ["C13"], "violation"),
  ("resample_clip_strict", "pyins/transform.py", "    times = times[(times >= state.index[0]) & (times <= state.index[-1])]", "    times = times[(times > state.index[0]) & (times <= state.index[-1])]", ["C18"], "violation"),
  ("est_get_keeps_nominal", "pyins/inertial_sensor.py", "                estimates.append(self.transform[axis_out, axis_in] -\n                                 (1 if axis_out == axis_in else 0))", "                estimates.append(self.transform[axis_out, axis_in])", ["C14"], "violation"),
  ("fb_sd_rows_at_batch_end", "pyins/filters.py", "        times_result.append(time)\n        gyro_result.append(gyro_model.get_estimates())", "        times_result.append(time + 0 * time_step)\n        gyro_result.append(gyro_model.get_estimates())", ["C09"], "quiet-or-drift"),
+ # ---- third round: C06 (MeasModel), C11 / C12 dataflow (FilterDataflow clauses, JointSystem terms)
+ ("pos_residual_args_swapped", "pyins/measurements.py", "        z = transform.compute_lla_difference(pva[LLA_COLS],\n                                             self.data.loc[time, LLA_COLS])",
+  "        z = transform.compute_lla_difference(self.data.loc[time, LLA_COLS],\n                                             pva[LLA_COLS])", ["C06"], "violation"),
+ ("body_H_not_transposed", "pyins/error_model.py", "        result[:, self.DV] = mat_nb.transpose()", "        result[:, self.DV] = mat_nb", ["C06"], "violation"),
+ ("body_R_is_sd", "pyins/measurements.py", "        super(BodyVelocity, self).__init__(data[['VX', 'VY', 'VZ']])\n        self.R = sd**2 * np.eye(3)", "        super(BodyVelocity, self).__init__(data[['VX', 'VY', 'VZ']])\n        self.R = sd * np.eye(3)", ["C06"], "violation"),
+ ("pos_lever_H_sign", "pyins/error_model.py", "            result[:, self.PHI] = util.skew_matrix(mat_nb @ imu_to_antenna_b)", "            result[:, self.PHI] = -util.skew_matrix(mat_nb @ imu_to_antenna_b)", ["C06"], "violation"),
+ ("t32_sign", "pyins/error_model.py", "        result[:, 5, 4] = VE\n        result[:, 5, 5] = -VN", "        result[:, 5, 4] = -VE\n        result[:, 5, 5] = VN", ["C06"], "violation"),
+ ("meas_lookup_isclose", "pyins/measurements.py", "    def compute_matrices(self, time, pva, error_model):\n        if time not in self.data.index:\n            return None\n\n        z = pva[VEL_COLS] - self.data.loc[time, VEL_COLS]",
+  "    def compute_matrices(self, time, pva, error_model):\n        near = np.flatnonzero(np.isclose(np.asarray(self.data.index, dtype=float), time))\n        if len(near) == 0:\n            return None\n        time = self.data.index[near[0]]\n\n        z = pva[VEL_COLS] - self.data.loc[time, VEL_COLS]", ["C06"], "violation"),
+ ("ff_qd_dropped", "pyins/filters.py", "        x = Phi @ x\n        P = Phi @ P @ Phi.transpose() + Qd", "        x = Phi @ x\n        P = Phi @ P @ Phi.transpose()", ["C11"], "violation"),
+ ("ff_x_not_propagated", "pyins/filters.py", "        x = Phi @ x\n        P = Phi @ P @ Phi.transpose() + Qd", "        P = Phi @ P @ Phi.transpose() + Qd", ["C11"], "violation"),
+ ("ff_P_association_changed", "pyins/filters.py", "        x = Phi @ x\n        P = Phi @ P @ Phi.transpose() + Qd", "        x = Phi @ x\n        P = Phi @ (P @ Phi.transpose()) + Qd", ["C11"], "quiet-or-drift"),
+ ("joint_fig_fia_swapped", "pyins/filters.py", "    F[ins_block, gyro_block] = Fig @ Hg", "    F[ins_block, gyro_block] = Fia @ Hg", ["C11"], "violation"),
+ ("joint_q_order", "pyins/filters.py", "q = np.hstack((gyro_model.v, accel_model.v, gyro_model.q, accel_model.q))", "q = np.hstack((gyro_model.v, gyro_model.q, accel_model.v, accel_model.q))", ["C11"], "violation"),
+ ("ff_comp_lon_radius", "pyins/filters.py", "    trajectory.lon -= error_nav.east / rp * transform.RAD_TO_DEG", "    trajectory.lon -= error_nav.east / rn * transform.RAD_TO_DEG", ["C11"], "violation"),
+ ("ff_comp_velocity_sign", "pyins/filters.py", "    trajectory[VEL_COLS] -= error_nav[VEL_COLS]", "    trajectory[VEL_COLS] += error_nav[VEL_COLS]", ["C11"], "violation"),
+ ("p0_level_azimuth_swapped", "pyins/filters.py", "    P_pva[error_model.DHEADING, error_model.DHEADING] = azimuth_sd ** 2", "    P_pva[error_model.DHEADING, error_model.DHEADING] = level_sd ** 2", ["C11", "C12"], "violation"),
+ ("fb_P_without_noise", "pyins/filters.py", "        P = Phi @ P @ Phi.transpose() + Qd\n\n    P_result = np.asarray(P_result)", "        P = Phi @ P @ Phi.transpose()\n\n    P_result = np.asarray(P_result)", ["C12"], "violation"),
+ ("fb_gyro_table_after_integrate", "pyins/filters.py", "            error_model.correct_pva(integrator.get_pva(), x[ins_block]))\n            gyro_model.update_estimates(x[gyro_block])",
+  "            error_model.correct_pva(integrator.get_pva(), x[ins_block]))\n            gyro_model.update_estimates(0.5 * x[gyro_block])", ["C12"], "violation"),
 ]
 
 
